@@ -22,7 +22,9 @@ PROP = "C02"
 RULE = (
     "generated forms (1-14 rows quick / 1-30 thorough, nesting depth up to 5 / 8, groups, repeats with "
     "count helpers, selects with or_other, name pool with prefix-related / case-variant / helper-like names, "
-    "dynamic defaults, triggers); distinct by canonical hash of the form; non-trivial = accepted by the "
+    "dynamic defaults, triggers); plus sheets with row-level flat groups at any depth (nested in each other, in plain "
+    "groups, beside repeats; small name pool so names clash only through a flat group) compared with the flat-aware "
+    "model; distinct by canonical hash of the form; non-trivial = accepted by the "
     "converter and containing at least one group or repeat"
 )
 
@@ -261,7 +263,11 @@ def flat_form(rng, big=False):
                 if flat:
                     row["flat"] = rng.choice(["yes", "true", "1", "no", "x"])
                 rows.append(row)
+                mark = len(rows)
                 block(depth + 1, budget, in_flat or flat, in_rep or sec == "repeat")
+                if len(rows) == mark and rng.random() < 0.93:
+                    # an empty section is rejected (Section.validate); keep that case rare
+                    rows.append({"type": "text", "name": name("q"), "label": "Q"})
                 rows.append({"type": f"end {sec}"})
             else:
                 t, extra = rng.choice(FLAT_Q)
